@@ -354,7 +354,7 @@ PROPS["C06"] = dict(
         dict(name="prod-dyn", src="serialize_harness.cpp", cfg="prod-dyn", env={}),
         dict(name="prod-dyn-nohsw", src="serialize_harness.cpp", cfg="prod-dyn+SONIC_VERIF_DISPATCH_NO_HASWELL", env={}),
     ],
-    require=["built:by-parsing", "built:through-mutation-api", "shape:duplicate-keys", "shape:scalar-root", "shape:empty-container-last-child",
+    require=["value-of-every-kind-at-every-remaining-capacity", "built:by-parsing", "built:through-mutation-api", "shape:duplicate-keys", "shape:scalar-root", "shape:empty-container-last-child",
              "non-finite-documents", "buffer:fresh", "buffer:explicit-small-capacity", "buffer:reused", "buffer:moved-from",
              "fill-level-sweep-documents", "fill-level:final-size-within-8-bytes-of-a-power-of-two"],
     assumptions=["reference recogniser/parser; ASan sees writes past the (8-byte aligned) realloc block only"],
